@@ -641,6 +641,17 @@ def _through_enum(chk: Check, pf: ProtoFlow, schema: Schema, r: Access, enum: st
                     c = chk.repo.resolve_name(r.f.module, ".".join(d), r.f.cls) if d else None
                     if c is not None and c.qualname in classes:
                         return True
+                    # ... or through a local function of the reader that converts its argument
+                    g = r.f.nested().get(use.func.id) if isinstance(use.func, ast.Name) else None
+                    if g is not None and g.param_names():
+                        p0 = g.param_names()[0]
+                        for u2 in ast.walk(g.node):
+                            if isinstance(u2, ast.Call) and len(u2.args) == 1 and isinstance(u2.args[0], ast.Name) \
+                                    and u2.args[0].id == p0:
+                                d2 = dotted(u2.func)
+                                c2 = chk.repo.resolve_name(r.f.module, ".".join(d2), r.f.cls) if d2 else None
+                                if c2 is not None and c2.qualname in classes:
+                                    return True
             return False
         cur, par = par, getattr(par, "_parent", None)
     return False
